@@ -25,6 +25,8 @@ MAX_LOG = 250
 # generator features = loci of known findings (masks): a masked program has none of them
 FEATURES = ("deco-order", "temp-inst", "native-enclosing", "comp-target", "global-skip", "class-in-func", "del-global",
             "nested-default")
+# features added later draw from a generator of their own, so that the programs of the earlier rounds stay the same
+LATE_FEATURES = ("nonlocal-skip",)
 
 
 def I(n):
@@ -153,6 +155,8 @@ class Gen:
         inner = {"kind": "func", "depth": ctx["depth"] + 1, "known": set(params), "name": name, "sig": sig,
                  "encl": ctx["encl"] | ctx.get("mine", set()) if ctx["kind"] in ("func",) else ctx["encl"],
                  "mine": set(params), "method": method, "encl_globals": ctx.get("encl_globals", set()) | set(ctx.get("globals", []))}
+        # the names of the function this definition is written in (through a class body: of the function around it)
+        direct = ctx.get("mine", set()) if ctx["kind"] == "func" else ctx.get("fmine", set())
         # declarations
         if r.random() < 0.3:
             g = r.choice(VARS + FUNCS)
@@ -160,7 +164,10 @@ class Gen:
                 code["globals"] = [g]
         cand = sorted(n for n in inner["encl"] if n not in code["globals"] and n not in params)
         if cand and r.random() < 0.4:
-            code["nonlocals"] = [r.choice(cand)]
+            nl = r.choice(cand)
+            # masked: nonlocal only for a variable of the function directly around (locus nonlocal-skip)
+            if self.feat.get("nonlocal-skip", True) or nl in direct:
+                code["nonlocals"] = [nl]
         inner["globals"] = code["globals"]
         code["body"] = self.gen_block(inner, r.randint(2, 6))
         if not any(s["k"] == "ret" for s in code["body"]) and r.random() < 0.6:
@@ -207,6 +214,7 @@ class Gen:
         self.codes.append(None)
         inner = {"kind": "class", "depth": ctx["depth"] + 1, "known": set(), "name": name,
                  "encl": ctx["encl"] | ctx.get("mine", set()) if ctx["kind"] == "func" else ctx["encl"], "mine": set(),
+                 "fmine": ctx.get("mine", set()) if ctx["kind"] == "func" else set(),
                  "encl_globals": ctx.get("encl_globals", set()) | set(ctx.get("globals", []))}
         body = []
         info = {"init": None, "methods": {}}
@@ -713,6 +721,12 @@ def loci(codes):
                     out.add("nested-default")
         if kind == "func" and code["globals"] and any(s["k"] == "del" and s["x"] in code["globals"] for s in walk_stmts(code["body"])):
             out.add("del-global")
+        if kind == "func":
+            # a nonlocal name the function binds whose owner is not the function directly around (class bodies skipped)
+            for x in set(code["nonlocals"]) & binds_of(code):
+                j = next((j for j in chain(i) if codes[j]["kind"] != "class"), None)
+                if j is None or x not in local_names(codes[j]):
+                    out.add("nonlocal-skip")
         if kind in ("func", "native", "lambda", "comp"):
             for x in free | set(code["nonlocals"]):
                 seen_global = False
@@ -1023,11 +1037,200 @@ async def run_pyscript(src):
     return log_list
 
 
+# ------------------------------------------------------------------------------ the capture family
+# WHICH ACTIVATION does a closure capture?  Systematic family (every member is generated in both tiers): an owner
+# function f0(p0) with a variable x; a capturer K that uses x, reached from the owner along the lexical path `via`;
+# the definition of K executes with the call stack in the situation `stack`; K is called at once in the defining
+# activation and once more after everything has returned (it is pushed to the tracer's list).  The expected log of
+# every member is computed by the PyScope machine; Python only assembles the programs.
+CAP_VIA = ("direct",      # def f0: def K
+           "fn",          # def f0: def f1: def K            f1 does not mention x
+           "fn-reads",    # def f0: def f1: ev(x); def K     f1 reads x itself
+           "cls",         # def f0: class C0: def m0 = K
+           "fn-cls",      # def f0: def f1: class C0: def m0 = K
+           "fn-fn")       # def f0: def f1: def f3: def K    three levels
+CAP_ACC = ("read",        # return ev(x)
+           "nl-read",     # nonlocal x; return ev(x)
+           "nl-rebind")   # nonlocal x; x = x - 1; return ev(x)
+CAP_VAR = ("p0", "v0")    # x is the owner's parameter / a local assigned from it
+CAP_STACK = ("once",                 # f0(c) called once from the module
+             "rec-before",           # f0 recursive, K defined before the recursive call: older activations of f0 below
+             "rec-after",            # f0 recursive, K defined after the recursive call returned
+             "driver-cell",          # f0 called from f4 which has a variable named x captured by a closure of its own
+             "driver-plain",         # f0 called from f4 which has a plain variable named x
+             "escape-module",        # f0 returns f1; f1 is called from the module (the owner is no longer on the stack)
+             "escape-driver-cell",   # f0 returns f1; f1 is called from f4 (variable named x, captured)
+             "escape-driver-plain",  # f0 returns f1; f1 is called from f4 (plain variable named x)
+             "escape-rec")           # f0 recursive: the outer activation calls the f1 returned by the inner one
+# the names the members use (every activation's variables are a function over this list: keep it small)
+CAP_NAMES = ["v0", "v1", "v2", "p0", "f0", "f1", "f2", "f3", "f4", "f5", "C0", "m0", "self", "o0", "o1", "__init__"]
+
+
+def cap_members():
+    out = []
+    for via in CAP_VIA:
+        for acc in CAP_ACC:
+            for var in CAP_VAR:
+                for stack in CAP_STACK:
+                    if stack.startswith("escape") and via in ("direct", "cls"):
+                        continue            # nothing to return: K is defined directly in the owner
+                    out.append((via, acc, var, stack))
+    return out
+
+
+def cap_id(member, rs):
+    return "r:%s/%s/%s/%s/%d" % (member + (rs,))
+
+
+def cap_from_id(pid):
+    via, acc, var, stack, rs = pid[2:].split("/")
+    return cap_program((via, acc, var, stack), int(rs))
+
+
+def cap_program(member, rs):
+    """Member (via, acc, var, stack) of the capture family, variation rs (constants, recursion depth, a decoy global
+    named like the variable).  Returns an `explicit` job entry: codes + the generator's structural facts (which
+    sites read the captured variable; whether a same-named variable of another activation is on the stack when K
+    is defined) - facts about the program text, not about its outcome."""
+    via, acc, var, stack = member
+    r = random.Random(rs * 1000003 + hash_str("/".join(member)))
+    codes = [None]
+    nsite = [0]
+
+    def S():
+        nsite[0] += 1
+        return nsite[0]
+
+    def ev(a, s=None):
+        return {"k": "ev", "s": s or S(), "a": a}
+
+    def call(f, *args):
+        return {"k": "call", "f": f, "args": list(args), "kws": []}
+
+    def add(code):
+        codes.append(code)
+        return len(codes)
+
+    def sig(*pk):
+        sg = EMPTY_SIG()
+        sg["pk"] = list(pk)
+        return sg
+
+    def sub1(a):
+        return {"k": "sub1", "a": a}
+
+    x = var
+    method = via in ("cls", "fn-cls")
+    esc = stack.startswith("escape")
+    rec = stack in ("rec-before", "rec-after", "escape-rec")
+    arg = r.choice([1, 2]) if rec else r.randint(2, 9) * 10
+    if stack == "rec-before" and acc == "nl-rebind" and var == "p0":
+        arg += 1                              # K decrements the recursion counter before it is tested
+    probe = S()
+    kbody = [{"k": "assign", "x": x, "e": sub1(N(x)), "g": 0}] if acc == "nl-rebind" else []
+    kbody.append({"k": "ret", "e": ev(N(x), probe), "g": 0})
+    ki = add(new_code("func", sig=sig("self") if method else EMPTY_SIG(), nonlocals=[] if acc == "read" else [x], body=kbody))
+
+    def holder():
+        """K's definition, its call in the defining activation, and the push for the call after the return"""
+        if method:
+            ci = add(new_code("class", body=[{"k": "def", "x": "m0", "c": ki, "decos": [], "g": 0}]))
+            return [{"k": "class", "x": "C0", "c": ci, "g": 0},
+                    {"k": "assign", "x": "v2", "e": call(N("C0")), "g": 0},
+                    {"k": "expr", "e": ev(call({"k": "attr", "o": N("v2"), "a": "m0"})), "g": S()},
+                    {"k": "push", "e": N("v2"), "g": 0}]
+        return [{"k": "def", "x": "f2", "c": ki, "decos": [], "g": 0},
+                {"k": "expr", "e": ev(call(N("f2"))), "g": S()},
+                {"k": "push", "e": N("f2"), "g": 0}]
+
+    if via in ("direct", "cls"):
+        core = holder()
+    else:
+        inner = holder()
+        if via == "fn-fn":
+            m2 = add(new_code("func", body=inner))
+            inner = [{"k": "def", "x": "f3", "c": m2, "decos": [], "g": 0}, {"k": "expr", "e": call(N("f3")), "g": S()}]
+        if via == "fn-reads":
+            inner = [{"k": "expr", "e": ev(N(x)), "g": S()}] + inner
+        mi = add(new_code("func", body=inner))
+        core = [{"k": "def", "x": "f1", "c": mi, "decos": [], "g": 0}]
+        if not esc:
+            core.append({"k": "expr", "e": call(N("f1")), "g": S()})
+    obody = [{"k": "assign", "x": "v0", "e": N("p0"), "g": 0}] if var == "v0" else []
+    if stack == "escape-rec":
+        recur = {"k": "ifpos", "e": N("p0"), "g": 0,
+                 "body": [{"k": "assign", "x": "v1", "e": call(N("f0"), sub1(N("p0"))), "g": 0},
+                          {"k": "expr", "e": ev(call(N("v1"))), "g": S()}]}
+    else:
+        recur = {"k": "ifpos", "e": N("p0"), "g": 0,
+                 "body": [{"k": "assign", "x": "v1", "e": call(N("f0"), sub1(N("p0"))), "g": 0}]}
+    oread = S()
+    if esc:
+        obody += core + ([recur] if rec else []) + [{"k": "ret", "e": N("f1"), "g": 0}]
+    else:
+        obody += {"rec-before": core + [recur], "rec-after": [recur] + core}.get(stack, core)
+        obody.append({"k": "expr", "e": ev(N(x), oread), "g": S()})
+    oi = add(new_code("func", sig=sig("p0"), body=obody))
+    mbody = []
+    if r.random() < 0.5:
+        mbody.append({"k": "assign", "x": x, "e": I(777), "g": 0})          # a decoy global named like the variable
+    mbody.append({"k": "def", "x": "f0", "c": oi, "decos": [], "g": 0})
+    sites = [probe, oread]
+    if "driver" in stack:
+        ux = r.randint(1, 9) * 100 + 5
+        ubody = [{"k": "assign", "x": "v0", "e": I(ux), "g": 0}] if var == "v0" else []
+        if stack.endswith("cell"):
+            di = add(new_code("func", body=[{"k": "ret", "e": N(x), "g": 0}]))
+            ubody.append({"k": "def", "x": "f5", "c": di, "decos": [], "g": 0})
+        if esc:
+            mbody.append({"k": "assign", "x": "o0", "e": call(N("f0"), I(arg)), "g": 0})
+            ubody += [{"k": "expr", "e": ev(call(N("o0"))), "g": S()} for _ in range(2)]
+        else:
+            ubody.append({"k": "expr", "e": ev(call(N("f0"), I(arg))), "g": S()})
+        uread = S()
+        sites.append(uread)
+        ubody.append({"k": "expr", "e": ev(N(x), uread), "g": S()})
+        ui = add(new_code("func", sig=EMPTY_SIG() if var == "v0" else sig("p0"), body=ubody))
+        mbody.append({"k": "def", "x": "f4", "c": ui, "decos": [], "g": 0})
+        mbody.append({"k": "expr", "e": ev(call(N("f4")) if var == "v0" else call(N("f4"), I(ux))), "g": S()})
+    elif esc:
+        mbody.append({"k": "assign", "x": "o0", "e": call(N("f0"), I(arg)), "g": 0})
+        mbody += [{"k": "expr", "e": ev(call(N("o0"))), "g": S()} for _ in range(1 if rec else 2)]
+    else:
+        mbody.append({"k": "expr", "e": ev(call(N("f0"), I(arg))), "g": S()})
+    later = call({"k": "attr", "o": N("o1"), "a": "m0"}) if method else call(N("o1"))
+    mbody.append({"k": "for", "x": "o1", "it": {"k": "box"}, "body": [{"k": "expr", "e": ev(later), "g": S()}], "g": 0})
+    codes[0] = new_code("module", body=mbody)
+    return {"seed": cap_id(member, rs), "codes": codes, "names": CAP_NAMES, "swap": sites,
+            "family": {"via": via, "acc": acc, "var": var, "stack": stack,
+                       "ambiguous": stack not in ("once", "escape-module")}}
+
+
+def hash_str(t):
+    import zlib
+    return zlib.crc32(t.encode())
+
+
+def swap_corruption(log, sites):
+    """Self-test of the capture family: exchange the values of two events that read the captured variable (or the
+    same-named variable of another activation) - what a recording looks like when the wrong activation was captured."""
+    idx = [i for i, e in enumerate(log) if e["s"] in sites and e["k"] == "int"]
+    for a in idx:
+        for b in idx:
+            if a < b and log[a]["n"] != log[b]["n"]:
+                lg = copy.deepcopy(log)
+                lg[a]["n"], lg[b]["n"] = log[b]["n"], log[a]["n"]
+                return lg
+    return None
+
+
 # ------------------------------------------------------------------------------ worker
 def gen_program(seed, masked, maxdepth=4):
     """Deterministic: program number `seed`; returns (codes, src, feat) or None if CPython's compiler rejects it."""
     r = random.Random(seed)
     feat = {f: (not masked and r.random() < 0.6) for f in FEATURES}
+    r2 = random.Random(seed * 7919 + 13)
+    feat.update({f: (not masked and r2.random() < 0.6) for f in LATE_FEATURES})
     g = Gen(r, feat, maxdepth)
     codes = g.program()
     src = render(codes)
@@ -1051,8 +1254,8 @@ def depth_of(codes):
     return d(0) - 1
 
 
-def case_of(pid, codes, logs):
-    return {"id": pid, "names": NAMES, "codes": codes, "fuel": FUEL,
+def case_of(pid, codes, logs, names=None):
+    return {"id": pid, "names": names or NAMES, "codes": codes, "fuel": FUEL,
             "logs": [{"who": who, "log": log} for who, log in logs]}
 
 
@@ -1071,8 +1274,11 @@ def work_scope(job):
             stats["syntax"] += 1
             continue
         progs.append((seed, not loci(g[0])) + g)
-    for c in job.get("explicit") or []:
+    extra = {}
+    for c in (job.get("explicit") or []) + [cap_program(tuple(m), rs) for m, rs in job.get("capture") or []]:
         progs.append((c["seed"], not loci(c["codes"]), c["codes"], render(c["codes"]), {}))
+        extra[c["seed"]] = c
+    stats["swap"] = []
 
     async def body(hass):
         import hashlib
@@ -1112,8 +1318,17 @@ def work_scope(job):
                         lg[mid]["k"] = "TypeError" if lg[mid]["k"] != "TypeError" else "NameError"
                     logs.append(("corrupt-" + kind, lg))
                     stats["corrupt"].append([pid, "corrupt-" + kind])
-            cases.append(case_of(pid, codes, logs))
+            x = extra.get(seed, {})
+            if x.get("swap") and clog == plog:
+                lg = swap_corruption(plog, x["swap"])
+                if lg is not None:
+                    logs.append(("corrupt-swap", lg))
+                    stats["corrupt"].append([pid, "corrupt-swap"])
+                    stats["swap"].append(pid)
+            cases.append(case_of(pid, codes, logs, x.get("names")))
             meta[pid] = {"seed": seed, "masked": masked, "loci": sorted(loci(codes)), "src": src, "constructs": sorted(cs)}
+            if "family" in x:
+                meta[pid]["family"] = x["family"]
 
     with_hass(body)
     with open(job["out"], "w") as f:
